@@ -393,6 +393,11 @@ class Program:
         if f:
             return f
         c = [g for g in self.funcs.values() if g.name == name]
+        if len(c) > 1:
+            # a static helper of a template exists once per instantiation: the rational one is meant
+            q = [g for g in c if "_mpq." in g.unit]
+            if len(q) == 1:
+                return q[0]
         return c[0] if len(c) == 1 else None
 
     def require_fn(self, name, unit=None):
